@@ -98,11 +98,20 @@ async def one(case, base, idx):
         with lib.quiet():
             await r2.unlock(password=b'pw0', key=r2.serialize(key) if key is not None else None)
             await r2.snapshot(paths=[d / 'src'])
-            await r2.restore(path=d / 'out')
     except Exception as e:
         return {'problem': 'accepted settings do not yield a usable repository', 'error': f'{type(e).__name__}: {e}'[:300]}
     finally:
         await r2.close()
+    # ... and ANOTHER fresh process restores (state accumulated inside the adapters of the writer must not matter)
+    r3 = Repository(Local(d / 'repo'), concurrent=2, quiet=True, cache_directory=None)
+    try:
+        with lib.quiet():
+            await r3.unlock(password=b'pw0', key=r3.serialize(key) if key is not None else None)
+            await r3.restore(path=d / 'out')
+    except Exception as e:
+        return {'problem': 'a snapshot taken with accepted settings cannot be restored by a fresh process', 'error': f'{type(e).__name__}: {e}'[:300]}
+    finally:
+        await r3.close()
     for k, v in files.items():
         rp = lib.restored_path(d / 'out', k)
         if not rp.exists() or rp.read_bytes() != v:
